@@ -342,7 +342,7 @@ func genNumerals(w *lib.Writer, r *lib.Rand, tier string) {
 	// the readers on the Go side; disagreements and a sample go through the model
 	alpha := []byte("019.ex- ")
 	maxLen := 6
-	accRate, rejRate := 12, 250 // 1 in N
+	accRate, rejRate := 20, 400 // 1 in N
 	if tier == "thorough" {
 		alpha = []byte("019.eEx-+ a")
 		accRate, rejRate = 6, 60
